@@ -183,6 +183,9 @@ struct Outcome {
     used_nth: bool,
     used_count: bool,
     used_fold: bool,
+    /// after a hard read error: did the parser deliver an error item (at all / not at the failing call itself)?
+    failure_reported: bool,
+    failure_reported_late: bool,
     /// sequence of (kind, bytes consumed at that point): the observable history
     history_hash: u64,
 }
@@ -221,7 +224,7 @@ fn run_case(case: &Case, scratch: Option<&Path>) -> Outcome {
     let mut out = Outcome {
         violation: None, trace: vec![], stats: ReadStats::default(), items: 0, delivered_ok: 0, delivered_err: 0,
         hard_fired_at_call: None, rows_after_hard_error: 0, of_which_not_in_file: 0, max_error_line: 0, asked_after_none: 0,
-        line_longer_than_buffer: data.split(|b| *b == b'\n').any(|l| l.len() > 8192), longest_line: data.split(|b| *b == b'\n').map(|l| l.len() + 1).max().unwrap_or(0), used_nth: false, used_count: false, used_fold: false, history_hash: 0,
+        line_longer_than_buffer: data.split(|b| *b == b'\n').any(|l| l.len() > 8192), longest_line: data.split(|b| *b == b'\n').map(|l| l.len() + 1).max().unwrap_or(0), used_nth: false, used_count: false, used_fold: false, failure_reported: false, failure_reported_late: false, history_hash: 0,
     };
     let max_calls = expected.len() + 8;
     let mut hh = hash_bytes(&data);
@@ -377,6 +380,8 @@ fn run_case(case: &Case, scratch: Option<&Path>) -> Outcome {
             if !due_ok && !clean_end {
                 if matches!(got, Got::Err { .. }) {
                     failure_reported = true;
+                    out.failure_reported = true;
+                    out.failure_reported_late = hard_at != Some(i);
                     i += 1;
                     continue;
                 }
@@ -706,6 +711,14 @@ fn worker(seed: u64, from: u64, to: u64, tier: &str, scratch: &Path) -> (Value, 
         }
         if o.hard_fired_at_call.is_some() {
             bump("hard_error_fired_runs", 1);
+            if o.failure_reported {
+                bump("probe_read_failure_reported_by_an_error_item", 1);
+            } else {
+                bump("probe_read_failure_never_reported_all_rows_still_correct", 1);
+            }
+            if o.failure_reported_late {
+                bump("probe_read_failure_reported_after_the_failing_call", 1);
+            }
         }
         bump("probe_rows_after_hard_error", o.rows_after_hard_error);
         bump("probe_rows_after_hard_error_not_in_file", o.of_which_not_in_file);
